@@ -289,6 +289,9 @@ class Engine:
                     v = deref(args.items[k].fields[0])
                     k += 1
                     s = as_str(v)
+                    if s is None and not (z3.is_expr(v) and v.sort() == z3.IntSort()):
+                        # result of a call left uninterpreted (e.g. a case conversion): an unknown string
+                        s = z3.String(self.fresh('unknown_' + (it.name_of(v) or 'value').split('#')[0]))
                     out.append(s if s is not None else z3.IntToStr(v))
                     i += 1
                 elif b < 0x80:
@@ -622,6 +625,83 @@ def replay_duplicate_ids(workdir):
     return bool(failed), {'failed_probes': failed}
 
 
+def ref_obligations(fns, consts):
+    """how an object reference is spelled in the support header (CxxCodeBodyTranslator::format_named_object_ref)"""
+    ob = O._ob('c10_mir_named_object_ref', 'uigen::binding::CxxCodeBodyTranslator::format_named_object_ref',
+               'every object name and every root object name (z3 strings); derived PartialEq of NamedObjectRef modelled as string equality, format! decoded from the MIR template',
+               'a reference to the object named N is spelled this->ui_->N, verbatim, unless N is the root object, which is this->root_')
+    t0 = time.time()
+    bad = []
+    eng = Engine(fns, consts, (False,))
+    try:
+        fn = M.find_fn(fns, r'::format_named_object_ref$')
+        fields = O.struct_fields('lib/src/uigen/binding.rs', 'CxxCodeBodyTranslator')
+        R, ROOT = z3.String('name'), z3.String('root_name')
+        tr = M.Adt('CxxCodeBodyTranslator', [M.Adt('NamedObjectRef', [ROOT]) if f == 'root_object_name' else M.Opaque('tr.' + f) for f in fields], fields)
+        base_call = eng.call
+
+        def call(c, it, p):
+            if c.callee.endswith('NamedObjectRef as PartialEq>::eq'):
+                x, y = deref(c.args[0]), deref(c.args[1])
+                if isinstance(x, M.Adt) and isinstance(y, M.Adt):
+                    return x.fields[0] == y.fields[0]
+            return base_call(c, it, p)
+        it = eng.interp(fn, {'_1': M.Ref(tr), '_2': M.Ref(M.Adt('NamedObjectRef', [R]))})
+        it.call_model = call
+        p0 = M.Path()
+        p0.heap = eng.initial_heap()
+        paths = [q for q in it.run(path=p0) if q.end == 'return']
+        want = z3.If(R == ROOT, z3.StringVal('this->root_'), z3.Concat(z3.StringVal('this->ui_->'), R))
+        az = z3.Union(z3.Range('a', 'z'), z3.Range('A', 'Z'))
+        idre = z3.Concat(z3.Range('a', 'z'), z3.Loop(z3.Union(az, z3.Range('0', '9')), 0, 5))
+        pre = [z3.InRe(R, idre), z3.InRe(ROOT, idre)]
+        if not paths:
+            bad.append('no returning path')
+        cover = []
+        for q in paths:
+            got = as_str(q.ret)
+            if got is None:
+                bad.append(f'returns {q.ret!r}')
+                continue
+            r = M.check(pre + q.pc + [got != want])
+            if r == 'unknown':
+                bad.append('UNKNOWN: spelling query')
+            elif r != 'unsat':
+                cx = {'name': RPstr(r[1].eval(R, model_completion=True)), 'root': RPstr(r[1].eval(ROOT, model_completion=True))}
+                ob.setdefault('counterexamples', []).append(cx)
+                bad.append(f'the reference is not spelled as documented for {cx}')
+            cover.append(z3.And(q.pc) if q.pc else z3.BoolVal(True))
+        O._unsat(pre + [z3.Not(z3.Or(cover))] if cover else [z3.BoolVal(True)], bad, 'some (name, root) pair has no returning path')
+    except M.MirError as e:
+        O._finish(ob, t0, ['MIR: ' + str(e)], unknown=True)
+        ob['detail'] = 'MIR: ' + str(e)
+        return [ob]
+    O._finish(ob, t0, bad, unknown=bool(bad) and all(b.startswith('UNKNOWN') for b in bad))
+    return [ob]
+
+
+def replay_refs(workdir, cxs=()):
+    """documents whose root and child ids are the model's (plus fixed ones): every reference must be spelled by the rule"""
+    from ..tv import driver as D
+    os.makedirs(workdir, exist_ok=True)
+    cases = [(c['root'], c['name']) for c in cxs] + [('top', 'topLabel'), ('topLevel', 'top'), ('top', 'srcEdit'), ('t', 't1')]
+    failed = []
+    for i, (root, name) in enumerate(cases):
+        child = name if name != root else name + 'X'
+        text = (f'import qmluic.QtWidgets\nQWidget {{\n id: {root}\n windowTitle: src_.text\n QVBoxLayout {{\n  QLineEdit {{ id: src_ }}\n'
+                f'  QLabel {{ id: {child}; text: src_.text }}\n  QLabel {{ id: dst_; text: {child}.text + {root}.windowTitle }}\n }}\n}}\n')
+        r = D.run_cli(C.build_native(), workdir, text, f'RefProbe{i}')
+        if r.rc != 0 or not r.header:
+            failed.append({'probe': f'{root}/{child}', 'document': text, 'stderr': r.stderr[:300]})
+            continue
+        for want in ('this->ui_->src_->text()', 'this->root_->windowTitle()', f'this->ui_->{child}->setText(', f'this->ui_->{child}->text()', 'this->root_->setWindowTitle(', 'this->ui_->dst_->setText('):
+            if want not in r.header:
+                failed.append({'probe': f'{root}/{child}', 'document': text, 'missing': want})
+    with open(os.path.join(workdir, 'README.txt'), 'w') as f:
+        f.write('qmluic generate-ui --foreign-types /repo/contrib/metatypes RefProbe*.qml; expected spellings missing from the headers:\n' + json.dumps(failed, indent=1) + '\n')
+    return bool(failed), {'failed_probes': failed}
+
+
 def _doc(eng, model, final, pattern):
     """the object sequence of a counterexample: [('id', text) | ('anon', prefix)], plus the predicted names"""
     if model is None:
@@ -734,6 +814,10 @@ def run(res, args):
             for ob in obs:
                 ob['name'] += '[' + ''.join('I' if x else 'a' for x in pat) + ']'
             O.merge(res, obs, res.coverage, replay_dup, 'ids')
+    def replay_ref(ob, d):
+        rep, info = replay_refs(d, ob.get('counterexamples') or ())
+        return rep, info, {'site': 'format_named_object_ref', 'probe': info['failed_probes'][0].get('missing', 'rejected') if info['failed_probes'] else None}
+    O.merge(res, ref_obligations(fns, consts), res.coverage, replay_ref, 'refs')
     res.coverage['samples'] = res.coverage['samples'][:12] + res.coverage['samples'][-6:]
     res.assumptions += [
         'C10 engine C: library calls are models, not code: HashMap/HashSet as (key set, values, len) over SMT arrays, find_map = least index with Some, format!/Display as string concatenation / int.to.str, String conversions as identity, Iterator::filter/next as "nodes in order that satisfy the inlined closure"',
